@@ -195,9 +195,10 @@ def _chunk(task):
 
 
 def PROOFS():
-    from ..contracts import config_c, variable_c, terms_c
+    from ..contracts import config_c, variable_c, terms_c, matrices_c
     return [("vf.contracts.config_c", config_c.FUNCTIONS), ("vf.contracts.variable_c", variable_c.FUNCTIONS),
-            ("vf.contracts.terms_c", terms_c.FUNCTIONS)]
+            ("vf.contracts.terms_c", terms_c.FUNCTIONS),
+            ("vf.contracts.matrices_c", ["formulae.matrices.GroupEffectsMatrix.evaluate_new_data"])]
 
 
 def run(report, findings):
